@@ -70,6 +70,7 @@ def enumerate_cases(tier):
         if case.get("family") == "flaky-stream":
             yield case
     yield from _overlap_cases(tier)
+    yield from _late_cases(tier)
     # short OS-level writes while the object is written (quota / file-size limit): success must still mean true digests
     for algo in ("SHA-256", "SHA-384"):
         for content in ({"hex": "73686f7274"}, {"pat": "ab", "n": 8192 + 1}, {"pat": "cd", "n": 3 * 8192}):
@@ -77,6 +78,66 @@ def enumerate_cases(tier):
                 for frac in (2, 3):
                     yield {"family": "short-writes", "cfg": {"algo": algo, "depth": 2, "width": 2}, "contents": [content],
                            "kind": kind, "frac": frac}
+
+
+def _late_cases(tier):
+    """A store_object whose file-system operations fail part-way - reported although the operation took effect (a lost reply),
+    or plainly - may raise; if it nevertheless reports success (the store recovered on its own), the map it returns is the map
+    of THAT call: exactly the defaults plus the algorithms it named, every value true."""
+    for algo in ("SHA-256", "MD5") if tier == "quick" else ("SHA-256", "MD5", "SHA-512"):
+        for prior in ("absent", "unreferenced", "referenced"):
+            for add, ca in (("sha224", None), ("SHA3-256", "blake2s"), (None, "SHA-224"), ("sha3_512", "md5")):
+                for mode in ("late", "one-off"):
+                    yield {"family": "faulted-store", "cfg": {"algo": algo, "depth": 2, "width": 2},
+                           "contents": [{"pat": "6c61", "n": 8192 + 11}], "prior": prior, "add": add, "cks_algo": ca, "mode": mode}
+
+
+def _late_case(case, ctx):
+    import os
+    from .. import fault, fsi, gen
+    fsi.install()
+    run = seq.Run(dict(case, ops=[]), ctx)
+    data = run.contents[0]
+    ctx.evaluations -= 1
+    want = set(common.DEFAULT_DIGESTS) | {gen.canon(a) for a in (case["add"], case["cks_algo"]) if a}
+    cks = hashlib.new(gen.canon(case["cks_algo"]), data).hexdigest() if case["cks_algo"] else None
+    k = 0
+    while k < 200:
+        d = os.path.join(run.work, f"fs{k}")
+        store = common.make_store(d, run.cfg)
+        if case["prior"] != "absent":
+            common.call(store.store_object, None if case["prior"] == "unreferenced" else "p.earlier", run.cpaths[0])
+        inj = fault.Injector(d, k, "EIO", "late" if case["mode"] == "late" else False)
+        with fsi.active(d, inj) as fctx:
+            if case["mode"] == "late":
+                fctx.after_path_op = inj.after
+            out = common.call(store.store_object, "p.a", run.cpaths[0], case["add"], cks, case["cks_algo"])
+        if inj.fired is None:
+            break
+        ctx.count()
+        where = (f"store_object(p.a, {len(data)} bytes, additional={case['add']}, checksum_algorithm={case['cks_algo']}) on a "
+                 f"{case['cfg']['algo']} store, content {case['prior']} before, with {inj.describe()}")
+        if is_ok(out):
+            got = out[1].hex_digests
+            if set(got) != want:
+                ctx.violation("faulted-store-keys", f"{where}: returned normally with keys {sorted(got)}, expected {sorted(want)}",
+                              {"what": "faulted store", "mode": case["mode"]})
+            for a, v in got.items():
+                if v != hashlib.new(a, data).hexdigest():
+                    ctx.violation("faulted-store-digest", f"{where}: returned normally, hex_digests[{a}] is not the digest of the content",
+                                  {"what": "faulted store", "mode": case["mode"]})
+            for a in sorted(want):
+                g = common.call(store.get_hex_digest, "p.a", a)
+                if not is_ok(g) or g[1] != hashlib.new(a, data).hexdigest():
+                    ctx.violation("faulted-store-digest", f"{where}: returned normally; get_hex_digest(p.a, {a}) -> "
+                                  f"{g[1] if not is_ok(g) else g[1][:16]}", {"what": "faulted store", "mode": case["mode"]})
+            ctx.classify("faulted-store-reported-success")
+        ctx.nontrivial(["faulted-store", case["cfg"]["algo"], case["prior"], case["add"], case["cks_algo"], case["mode"], inj.fired.kind,
+                        "ok" if is_ok(out) else out[1]])
+        common.rmtree(d)
+        k += 1
+    ctx.classify("faulted-store-programs")
+    run.close()
 
 
 OV_CONTENTS = [[{"hex": "00" * 7}, {"hex": "ff" * 7}, {"hex": "0a0a41"}],                       # same length
@@ -101,7 +162,7 @@ def _overlap_cases(tier):
 
 
 def case_cost(case):
-    return 30 if case.get("family") == "overlap" else 1
+    return 30 if case.get("family") == "overlap" else 8 if case.get("family") == "faulted-store" else 1
 
 
 def _short_writes_case(case, ctx):
@@ -186,6 +247,8 @@ def run_case(case, ctx):
         return _overlap_case(case, ctx)
     if case.get("family") == "short-writes":
         return _short_writes_case(case, ctx)
+    if case.get("family") == "faulted-store":
+        return _late_case(case, ctx)
     run = seq.Run(case, ctx)
     prev = []
     # every (pid, algorithm, instance) question asked during the history is asked again at the end
